@@ -5,7 +5,7 @@ use crate::{
     net::{Host, NetState, SharedNet, SimNet},
     obs::{classify_close, CloseKind, EventTap, Obs, SharedObs, WireMonitor, WireProvider},
     plan::*,
-    providers::{RetryLimiter, SimCidFormat, SimRandom, SimTokenGen},
+    providers::{RetryLimiter, SimAddressToken, SimCidFormat, SimRandom, SimTokenGen},
     simtls::{self, SharedTlsLog, TlsCfg, TlsLog},
 };
 use bytes::Bytes;
@@ -941,6 +941,7 @@ fn start_server(
     let e = &plan.cfg.server;
     let b = build_endpoint!(Server::builder(), e, 0u32, Role::Server, plan, handle, obs, tls, sock, true);
     let b = b.with_endpoint_limits(RetryLimiter { retry: e.retry }).unwrap();
+    let b = b.with_address_token(SimAddressToken::new(hashn(plan.rand_key, &[0xadd7, 0]))).unwrap();
     if e.cc == 1 {
         b.with_congestion_controller(cc::Bbr::default()).unwrap().start().unwrap()
     } else {
